@@ -804,9 +804,16 @@ where
             fmt,
             brace_written,
             first,
+            has_attr,
             strategy,
             ..
         } = &mut self;
+        if *has_attr && !*brace_written {
+            // A slot that directly follows attributes must be delimited.
+            fmt.write_str("{")?;
+            strategy.start_block(1).fmt(fmt)?;
+            *brace_written = true;
+        }
         if *first {
             *first = false;
         } else {
